@@ -5,3 +5,4 @@ import SmtpV.Props.C07
 #print axioms SmtpV.Props.C07.C07_bdat_eof_only_after_last
 #print axioms SmtpV.Props.C07.C07_abandoned_is_reset
 #print axioms SmtpV.Props.C07.C07_reset_close_no_eof
+#print axioms SmtpV.Props.C07.C07_cut_connection_no_eof
